@@ -461,6 +461,9 @@ func c09Judge(w *mon.W, id string, p *c09Pool, run c09Run, how string) (sig stri
 	seen := map[string]int{}
 	var order []string
 	for i, c := range run.out {
+		if i == 0 {
+			retainCheck(w, id, "construct", c.Sequence, "a construct returned by "+how)
+		}
 		if !c.Circular {
 			return fail(fmt.Sprintf("construct %d is not marked circular", i))
 		}
